@@ -333,6 +333,8 @@ func fixedCases() []Case {
 		}
 		one([]string{l}, append(reqs, logReads...)...)
 	}
+	// 7. name spellings (spell_test.go)
+	cs = append(cs, spellingCases()...)
 	return cs
 }
 
@@ -422,12 +424,12 @@ func genFill(t *rapid.T, endpoint string, fresh string) string {
 		case strings.HasPrefix(p, "/services/cluster/"):
 			v = pick("cname", "c44cluster", "x")
 		default:
-			v = pick("uname", adminUser, userPlain, userSpec, "c44f"+fresh, "nobody")
+			v = genPathSpelling(t, pick("uname", adminUser, userPlain, userSpec, "c44f"+fresh, "nobody"))
 		}
 		p = strings.Replace(p, "{{name}}", v, 1)
 	}
 	if strings.Contains(p, "{{dsn}}") {
-		p = strings.Replace(p, "{{dsn}}", pick("dname", dsnPG, dsnPG2, dsnLite, dsnLite, "c44g"+fresh, "nodsn"), 1)
+		p = strings.Replace(p, "{{dsn}}", genPathSpelling(t, pick("dname", dsnPG, dsnPG2, dsnLite, dsnLite, "c44g"+fresh, "nodsn")), 1)
 	}
 	if strings.Contains(p, "{{table}}") {
 		p = strings.Replace(p, "{{table}}", pick("tname", tableName, tableName, "notable"), 1)
@@ -442,6 +444,16 @@ func genFill(t *rapid.T, endpoint string, fresh string) string {
 	p = strings.Replace(p, "{{value}}", "12", 1)
 	p = strings.Replace(p, "{{code}}", pick("code", "200", "404", "500"), 1)
 	return p
+}
+
+// genPathSpelling spells a name in a URL path: the canonical way three times
+// out of four, otherwise under a drawn spelling class.
+func genPathSpelling(t *rapid.T, name string) string {
+	if rapid.IntRange(0, 3).Draw(t, "respell") != 0 {
+		return name
+	}
+	cl := spellingsFor("path")
+	return pathSegment(cl[rapid.IntRange(0, len(cl)-1).Draw(t, "respell_class")], name)
 }
 
 // genTableRequest builds one request for an arbitrary route of the live
@@ -556,8 +568,10 @@ func genCase(t *rapid.T) Case {
 	for i := 0; i < n; i++ {
 		id := fmt.Sprintf("%s.%d", fresh, i)
 		switch k := rapid.IntRange(0, 99).Draw(t, "kind"); {
-		case k < 50:
+		case k < 40:
 			c.Reqs = append(c.Reqs, genTableRequest(t, fresh))
+		case k < 50:
+			c.Reqs = append(c.Reqs, genSpelled(t, fresh))
 		case k < 60: // setting names, several at once, existing and not
 			m := rapid.IntRange(1, 4).Draw(t, "nnames")
 			var names []string
